@@ -27,18 +27,21 @@ type faultyWriter struct {
 	mode    int // 0: accept 0 bytes, 1: accept 1 byte, 2: accept len-1 bytes
 	failed  bool
 	lastLen int
+	// transient: only write failAt fails; later writes succeed again (a connection that hit a deadline once)
+	transient bool
+	snap      []byte
 }
 
 func (w *faultyWriter) Write(p []byte) (int, error) {
 	idx := w.writes
 	w.writes++
-	if w.failed {
+	if w.failed && !w.transient {
 		return 0, errInjected
 	}
 	if idx == w.failAt {
 		w.failed = true
 		n := 0
-		switch w.mode {
+		switch w.mode % 3 {
 		case 1:
 			n = 1
 		case 2:
@@ -51,6 +54,7 @@ func (w *faultyWriter) Write(p []byte) (int, error) {
 			n = 0
 		}
 		w.buf.Write(p[:n])
+		w.snap = append([]byte(nil), w.buf.Bytes()...) // what the writer had accepted when it failed
 		return n, errInjected
 	}
 	w.buf.Write(p)
@@ -132,7 +136,7 @@ func runHistory(c *fw.Ctx, cf config, h []int) {
 	}
 	hdrLen := cp.HeaderEnd
 	for k := 0; k < total; k++ {
-		for mode := 0; mode < 3; mode++ {
+		for mode := 0; mode < 6; mode++ {
 			c.Eval(1)
 			c.Nontrivial(fmt.Sprintf("%s/%s/%d/%v/%d/%d", cf.k.Name, cf.codec, cf.bs, h, k, mode))
 			oneFault(c, cf, h, k, mode, cleanOut, hdrLen, writeOfCall, desc, locus)
@@ -148,7 +152,7 @@ func writeRole(k int) string {
 }
 
 func oneFault(c *fw.Ctx, cf config, h []int, k, mode int, cleanOut []byte, hdrLen int, writeOfCall []int, desc, locus string) {
-	fw_ := &faultyWriter{failAt: k, mode: mode}
+	fw_ := &faultyWriter{failAt: k, mode: mode, transient: mode >= 3}
 	detail := map[string]interface{}{"type": cf.k.Name, "codec": cf.codec, "blocksize": cf.bs, "history": encdrv.HistString(cf.k, h), "fail_write": k, "mode": mode}
 	d2 := fmt.Sprintf("%s failing write #%d (%s) mode %d", desc, k, writeRole(k), mode)
 	role := writeRole(k)
@@ -160,7 +164,7 @@ func oneFault(c *fw.Ctx, cf config, h []int, k, mode int, cleanOut []byte, hdrLe
 			} else if !errors.Is(err, errInjected) {
 				c.Violation("error-not-wrapped|"+locus+"|header", fmt.Sprintf("NewEncoderFor error %v does not wrap the writer's error — %s", err, d2), detail)
 			}
-			checkPrefix(c, fw_.buf.Bytes(), cleanOut, hdrLen, locus, role, d2, detail)
+			checkPrefix(c, fw_.snap, cleanOut, hdrLen, locus, role, d2, detail)
 			return
 		}
 		if err != nil {
@@ -188,7 +192,7 @@ func oneFault(c *fw.Ctx, cf config, h []int, k, mode int, cleanOut []byte, hdrLe
 				} else if !errors.Is(err, errInjected) {
 					c.Violation("error-not-wrapped|"+locus+"|"+role, fmt.Sprintf("call %d error %v does not wrap the writer's error — %s", i, err, d2), detail)
 				}
-				checkPrefix(c, fw_.buf.Bytes(), cleanOut, hdrLen, locus, role, d2, detail)
+				checkPrefix(c, fw_.snap, cleanOut, hdrLen, locus, role, d2, detail)
 				return
 			}
 			if err != nil {
@@ -239,7 +243,13 @@ func runFileWriter(c *fw.Ctx, codec string, nblocks int) {
 			}
 			errs = append(errs, fwr.WriteHeader(w))
 			for _, s := range seq {
+				if errs[len(errs)-1] != nil {
+					break // behaviour after an error is not specified
+				}
 				errs = append(errs, fwr.WriteBlock(w, s+1, payloads[s]))
+			}
+			for len(errs) < len(seq)+1 {
+				errs = append(errs, nil)
 			}
 			return errs, fwr
 		}
@@ -257,10 +267,10 @@ func runFileWriter(c *fw.Ctx, codec string, nblocks int) {
 			return
 		}
 		for k := 0; k < clean.writes; k++ {
-			for mode := 0; mode < 3; mode++ {
+			for mode := 0; mode < 6; mode++ {
 				c.Eval(1)
 				c.Nontrivial(fmt.Sprintf("fwriter/%s/%v/%d/%d", codec, seq, k, mode))
-				w := &faultyWriter{failAt: k, mode: mode}
+				w := &faultyWriter{failAt: k, mode: mode, transient: mode >= 3}
 				role := writeRole(k)
 				d2 := fmt.Sprintf("%s failing write #%d (%s) mode %d", desc, k, role, mode)
 				c.Guard(locus+"|"+role, d2, d2, func() {
@@ -282,8 +292,7 @@ func runFileWriter(c *fw.Ctx, codec string, nblocks int) {
 						c.Violation("error-not-wrapped|"+locus+"|"+role, fmt.Sprintf("call %d error %v does not wrap the writer's error — %s", call, errs[call], d2), d2)
 					}
 					// the prefix is what was accepted up to and including the failing write
-					got := w.buf.Bytes()
-					checkPrefix(c, got, clean.buf.Bytes(), cp.HeaderEnd, locus, role, d2, d2)
+					checkPrefix(c, w.snap, clean.buf.Bytes(), cp.HeaderEnd, locus, role, d2, d2)
 				})
 			}
 		}
@@ -340,7 +349,7 @@ func init() {
 			if tier == "thorough" {
 				d = 6
 			}
-			return fmt.Sprintf("every call history of the real Encoder[T] up to length %d over {encode(1B), encode(10B), encode(41B), flush} (struct{S string}; block sizes 0, 10, 2^20) and {encode(0B), flush} (struct{}), × {null,deflate,snappy} × every write index k of the fault-free run × failure mode {accept 0, 1, len-1 bytes} + error; plus FileWriter.WriteHeader/WriteBlock driven directly over every sequence of <=3 (4 thorough) blocks from a 3-payload alphabet; a case is one (history, k, mode) triple; non-trivial = the failing write was reached and the accepted bytes compared with the fault-free run re-keyed to the same sync marker", d)
+			return fmt.Sprintf("every call history of the real Encoder[T] up to length %d over {encode(1B), encode(10B), encode(41B), flush} (struct{S string}; block sizes 0, 10, 2^20) and {encode(0B), flush} (struct{}), × {null,deflate,snappy} × every write index k of the fault-free run × failure mode {accept 0, 1, len-1 bytes} + error × {every later write fails too, only this write fails (transient)}; plus FileWriter.WriteHeader/WriteBlock driven directly over every sequence of <=3 (4 thorough) blocks from a 3-payload alphabet; a case is one (history, k, mode) triple; non-trivial = the failing write was reached and the accepted bytes compared with the fault-free run re-keyed to the same sync marker", d)
 		},
 		Assumptions: []string{
 			"the writer obeys io.Writer: a short write comes with a non-nil error; after the first failure the history stops (behaviour after an error is not specified by the property)",
